@@ -123,6 +123,21 @@ def wrapper_accumulate(tier):
                 acc = G.accumulate(fdb, fld_arg) if fld_arg is not None else G.accumulate(fdb)
             out.append(('result-returned-as-computed', np.array_equal(acc.data, written), dict(nrows=nr, ncols=nc, default_field=fld_arg is None,
                                                                                                got=acc.data.ravel().tolist()[:4])))
+        # a field stored in a narrow type: the kernel works on (and the caller gets) float64, sums that do not fit the field's type included
+        for dt in (np.int16, np.uint8, np.float32):
+            fldn = G.Grid('f', nc, nr, dtype=dt)
+            fldn.data = np.full((nr, nc), 3, dtype=dt)
+            big = np.arange(nr * nc, dtype=float).reshape(nr, nc) * 1000.0 + 35000.25
+
+            def fillbig(c, big=big):
+                c.raw_args[6][:] = big
+                return 0
+            rec = Recorder({'accumulate': fillbig})
+            with patched_module(G, 'c_hydrodiy_gis', rec):
+                acc = G.accumulate(fdb, fldn)
+            c = rec.calls[-1]
+            out.append(('narrow-field-accumulated-in-float64', c.args[5].dtype == np.float64 and c.args[6].dtype == np.float64 and np.array_equal(acc.data, big)
+                        and bool(np.all(fldn._data == 3)), dict(nrows=nr, ncols=nc, dtype=str(np.dtype(dt)), got=acc.data.ravel().tolist()[:2])))
         # explicit limit is passed through
         rec = Recorder()
         fd = G.Grid('fd', nc, nr, dtype=np.int64)
